@@ -266,6 +266,10 @@ func (rn *runner) searchCase(pat []rune, docs [][]rune, class string) {
 		key = "literal-regexp-tree-differs"
 		goV = fmt.Sprintf("query.Regexp{literal} (same match tree by construction) differs from query.Substring: %s vs %s", resString(lRes), resString(sRes))
 	}
+	// the public parser path: "(?i)lit" (RegexpQuery's literal → substring optimisation) vs "(?i)lit(?:)"
+	if goV == "" && wordy(pat) {
+		rn.parserPath(s, pat, docs, sRes, rRes, det)
+	}
 	// reference bookkeeping (not a verdict): do both forms implement Unicode simple folding?
 	uni := true
 	for i, d := range docs {
@@ -298,6 +302,81 @@ func (rn *runner) searchCase(pat []rune, docs [][]rune, class string) {
 	}
 	w.Emit(gen.Case{In: in, Impl: fmt.Sprintf("s=%s r=%s", resString(sRes), resString(rRes)), Go: goV, Key: key, Class: class,
 		Nontrivial: nontrivial, Detail: gen.Detail(det)})
+}
+
+func wordy(pat []rune) bool {
+	for _, c := range pat {
+		if !(unicode.IsLetter(c) || unicode.IsDigit(c)) {
+			return false
+		}
+	}
+	return len(pat) > 0
+}
+
+// parserPath: the same literal typed by a user with an inline (?i), once bare — RegexpQuery turns a literal regexp into
+// a query.Substring — and once in a form that stays a regexp. Both must behave like the case-insensitive forms above.
+func (rn *runner) parserPath(s zoekt.Searcher, pat []rune, docs [][]rune, sRes, rRes [][]span, det detail) {
+	qa, errA := query.Parse("(?i)" + string(pat))
+	qb, errB := query.Parse("(?i)" + string(pat) + "(?:)")
+	if errA != nil || errB != nil {
+		rn.w.Count("parser-path-skipped", 1)
+		return
+	}
+	// correspondence of the atom RegexpQuery builds
+	if r, err := syntax.Parse("(?i)"+string(pat), query.VerifRegexpFlags); err == nil {
+		if o := query.OptimizeRegexp(r, query.VerifRegexpFlags); o.Op == syntax.OpLiteral {
+			impl := "regexp"
+			if sub, ok := qa.(*query.Substring); ok {
+				impl = "substring " + runesDot([]rune(sub.Pattern))
+			}
+			fold := "0"
+			if o.Flags&syntax.FoldCase != 0 {
+				fold = "1"
+			}
+			rn.w.Emit(gen.Case{In: "rq " + fold + " " + runesDot(o.Rune), Impl: impl, Class: "regexpquery", Nontrivial: true, Detail: gen.Detail(det)})
+		}
+	}
+	aRes, err1 := search(s, qa, len(docs))
+	bRes, err2 := search(s, qb, len(docs))
+	d := det
+	d.Note = fmt.Sprintf("query.Parse(%q) = %v ; query.Parse(%q) = %v", "(?i)"+string(pat), qa, "(?i)"+string(pat)+"(?:)", qb)
+	if err1 != nil || err2 != nil {
+		rn.w.Emit(gen.Case{Go: fmt.Sprintf("search error: %v %v", err1, err2), Key: "search-error", Class: "parser-path", Detail: gen.Detail(d)})
+		return
+	}
+	goV, key := "", ""
+	switch {
+	case !eqRes(aRes, sRes):
+		goV = fmt.Sprintf("the query (?i)%s does not behave like a case-insensitive search for the literal: %s vs %s", string(pat), resString(aRes), resString(sRes))
+		if sub, ok := qa.(*query.Substring); ok && sub.CaseSensitive {
+			// RegexpQuery turned the folded literal into a case-sensitive Substring (the defect fixed in query/parse.go)
+			key = "regexpquery-drops-foldcase"
+		} else {
+			// the folded literal is stored as the smallest member of each orbit; searching that spelling case-insensitively
+			// differs from searching the typed spelling exactly on the runes whose orbit and lower-casing disagree
+			// the folded literal is stored as the smallest member of each orbit; if that member lower-cases differently from
+			// the typed rune (an orbit with two lower-case members) the two substring searches differ
+			key = "parser-path:unexpected"
+			if re, ok := qa.(*query.Regexp); ok && re.Regexp.Op == syntax.OpLiteral && len(re.Regexp.Rune) == len(pat) {
+				for k, m := range re.Regexp.Rune {
+					if unicode.ToLower(m) != unicode.ToLower(pat[k]) {
+						key = fmt.Sprintf("orbit-split-by-lower:U+%04X", m)
+						break
+					}
+				}
+			}
+		}
+	case !eqRes(bRes, rRes):
+		goV = fmt.Sprintf("the query (?i)%s(?:) differs from query.Regexp{lit(?:)} case-insensitive: %s vs %s", string(pat), resString(bRes), resString(rRes))
+		key = "parser-path-regexp-differs"
+	}
+	nt := false
+	for _, x := range aRes {
+		if len(x) > 0 {
+			nt = true
+		}
+	}
+	rn.w.Emit(gen.Case{Go: goV, Key: key, Class: "parser-path", Nontrivial: nt, Detail: gen.Detail(d)})
 }
 
 // ---------- generators ----------
